@@ -387,6 +387,11 @@ func DrawConforming(t *rapid.T, o GenOpt) Case {
 			c.Inv.Meta = append(c.Inv.Meta, val.KV{K: fmt.Sprintf("m%d", j), V: val.Str(rapid.SampledFrom([]string{"x", "", "meta"}).Draw(t, "mv"))})
 		}
 	}
+	if rapid.IntRange(0, 3).Draw(t, "reseal") == 1 {
+		for i := range c.Links {
+			c.Links[i].Reseal = rapid.IntRange(0, 3).Draw(t, "reseal_n")
+		}
+	}
 	if rapid.IntRange(0, 2).Draw(t, "optperm") == 1 {
 		// the constructor options of every token in another order: they set different things, the order means nothing
 		c.Inv.OptPerm = rapid.IntRange(1, 1<<16).Draw(t, "optperm_inv")
